@@ -4,7 +4,7 @@
    schedule-independent.  STL: a block that is present in full is returned whole for every schedule.
    TTML and teletext hand the stream to encoding/xml and astits: covered by the harness only. *)
 From Coq Require Import List NArith Bool Arith.
-From Astisub Require Import Kit.Base Kit.Scan Model.Srt Proofs.ScanProofs Proofs.SrtIOProofs.
+From Astisub Require Import Kit.Base Kit.Scan Model.Srt Model.Vtt Proofs.ScanProofs Proofs.SrtIOProofs Proofs.VttIOProofs.
 Import ListNotations.
 Open Scope N_scope.
 
@@ -28,6 +28,10 @@ Proof. exact lines_last. Qed.
 (* the SubRip reader under any schedule *)
 Theorem C17_srt : forall data counts, read_srt_lines (scan data counts) false = read_srt data.
 Proof. exact read_srt_schedule. Qed.
+(* the WebVTT reader under any schedule *)
+Theorem C17_vtt : forall data counts, read_vtt_lines (scan data counts) false = read_vtt data.
+Proof. exact read_vtt_schedule. Qed.
+
 (* STL block reads (io.ReadFull semantics) *)
 Theorem C17_stl_block : forall n data counts, (n <= length data)%nat ->
   exists cs, read_n n data counts = RnOk (firstn n data) (skipn n data) cs.
@@ -46,3 +50,4 @@ Print Assumptions C17_lines_cr.
 Print Assumptions C17_lines_last.
 Print Assumptions C17_srt.
 Print Assumptions C17_stl_block.
+Print Assumptions C17_vtt.
